@@ -84,6 +84,14 @@ func (x *Exec) callStatic(f *Frame, callee *ssa.Function, args []Val, binds []Va
 		}
 		return out
 	}
+	// String()/Error()/GoString() methods: effect-free
+	if sig := callee.Signature; sig.Recv() != nil && sig.Params().Len() == 0 && sig.Results().Len() == 1 &&
+		(callee.Name() == "String" || callee.Name() == "Error" || callee.Name() == "GoString") {
+		x.note("String()/Error() methods are assumed effect-free")
+		t := x.b.Fresh("str_"+callee.Name(), x.tm.SortOf(sig.Results().At(0).Type()))
+		x.assume(x.cur.reach, x.typeFact(t, sig.Results().At(0).Type(), x.cur.Alloc(x)))
+		return []Val{{T: t}}
+	}
 	if x.inlinable(callee) || (con != nil && con.Inline && callee.Blocks != nil) {
 		if f.depth >= 6 {
 			x.fail("inlining too deep at %s", callee)
@@ -247,6 +255,24 @@ func (x *Exec) callContract(f *Frame, callee *ssa.Function, con *Contract, args 
 			}
 		}
 	}
+	if len(con.XEnsures) > 0 || len(con.PanicsIf) > 0 {
+		// the callee may panic: split the state
+		panicked := x.b.Fresh("panicked_"+short, SBool)
+		ps := x.cur.clone()
+		ps.reach = x.b.Def("reach_panic", And(x.cur.reach, panicked))
+		xenv := x.newEnv(vars, ps, pre)
+		xenv.fnPos = token.NoPos
+		for _, e := range con.XEnsures {
+			x.assumeSpec(ps.reach, e.Expr, xenv, "xensures of "+short+": "+e.Src)
+		}
+		for _, e := range con.PanicsIf {
+			pe := *xenv
+			pe.st = pre
+			x.assumeSpec(ps.reach, e.Expr, &pe, "panics_if of "+short+": "+e.Src)
+		}
+		f.panics = append(f.panics, panicState{st: ps, pos: pos, what: "panic in " + short})
+		x.cur.reach = x.b.Def("reach_nopanic", And(x.cur.reach, Not(panicked)))
+	}
 	penv := x.newEnv(post, x.cur.clone(), pre)
 	penv.fnPos = token.NoPos
 	for _, e := range con.Ensures {
@@ -284,6 +310,10 @@ func (x *Exec) inline(f *Frame, callee *ssa.Function, args []Val, binds []Val, p
 	save := x.cur
 	x.b.Comment("inline " + callee.String())
 	x.runFrame(nf)
+	if len(nf.deferred) > 0 {
+		x.fail("inlined function %s uses defer", callee.Name())
+	}
+	f.panics = append(f.panics, nf.panics...)
 	if len(nf.exits) == 0 {
 		// callee never returns normally (always panics)
 		x.cur = save
@@ -494,7 +524,7 @@ func (x *Exec) execBuiltin(f *Frame, i *ssa.Call, b *ssa.Builtin) {
 	case "append":
 		x.execAppend(f, i)
 	case "copy":
-		x.fail("copy (only the recognised allocate-and-copy idioms are supported)")
+		x.execCopy(f, i)
 	case "delete":
 		mt := args[0].Type().Underlying().(*types.Map)
 		x.mapDelete(f, mt, x.term(f, args[0]), x.term(f, args[1]))
@@ -512,7 +542,14 @@ func (x *Exec) execBuiltin(f *Frame, i *ssa.Call, b *ssa.Builtin) {
 		}
 		x.setReg(f, i, t)
 	case "recover":
-		f.regs[i] = Val{T: nilIfc}
+		if x.inRecover {
+			t := x.b.Fresh("recovered", SIfc)
+			x.assume(x.cur.reach, And(Not(Eq(IfcTag(t), IntLit(0))), x.typeFact(t, i.Type(), x.cur.Alloc(x))))
+			f.regs[i] = Val{T: t}
+			x.inRecover = false // a second recover() returns nil
+		} else {
+			f.regs[i] = Val{T: nilIfc}
+		}
 	case "print", "println":
 		f.regs[i] = Val{}
 	case "ssa:wrapnilchk":
@@ -585,14 +622,35 @@ func (x *Exec) execDefer(f *Frame, i *ssa.Defer) {
 			return
 		}
 	}
-	if i.Call.IsInvoke() && i.Call.Method.Pkg() != nil && x.db.PurePkg[i.Call.Method.Pkg().Path()] {
-		return
+	if i.Call.IsInvoke() {
+		if i.Call.Method.Pkg() != nil && x.db.PurePkg[i.Call.Method.Pkg().Path()] {
+			return
+		}
+		x.fail("defer of interface method %s", i.Call.Method.Name())
 	}
-	f.deferred = append(f.deferred, i)
-	x.fail("defer of %s", i.Call.Value)
+	fv := x.val(f, i.Call.Value)
+	if fv.Fn == nil || fv.Fn.Blocks == nil {
+		x.fail("defer of %s", i.Call.Value)
+	}
+	var args []Val
+	for _, a := range i.Call.Args {
+		args = append(args, x.val(f, a))
+	}
+	f.deferred = append(f.deferred, deferRec{ins: i, fn: fv, args: args})
 }
 
-func (x *Exec) runDefers(f *Frame) {}
+// runDeferred runs the deferred closures (last first) in the current state. Defers registered on a
+// path are assumed to be registered on every path reaching the exit (true for the accepted shape:
+// defers at the top of the function).
+func (x *Exec) runDeferred(f *Frame) {
+	for k := len(f.deferred) - 1; k >= 0; k-- {
+		d := f.deferred[k]
+		if d.ins.Block() != f.fn.Blocks[0] {
+			x.fail("defer outside the entry block")
+		}
+		x.inline(f, d.fn.Fn, d.args, d.fn.Bind, d.ins.Pos())
+	}
+}
 
 // ---------------------------------------------------------------------------
 // ghost summation over string maps: sz(m) = sum over present keys of len(k)+len(v)
@@ -600,6 +658,83 @@ func (x *Exec) runDefers(f *Frame) {}
 func (x *Exec) szTerm(mv Term) Term {
 	x.b.DeclFun("sz", []Sort{mv.Sort}, SInt)
 	return App(SInt, "sz", mv)
+}
+
+// szMember: the member bound of the ghost sum at a key that is read.
+func (x *Exec) szMember(mv, k Term) {
+	if !x.usesSz || !isMapSort(mv.Sort) {
+		return
+	}
+	ks, vs := mapVKV(mv.Sort)
+	if ks != SStr || vs != SStr {
+		return
+	}
+	s := x.szTerm(mv)
+	x.assume(x.cur.reach, And(mk(SBool, "(>= %s 0)", s),
+		Implies(Select(MapHas(mv), k), mk(SBool, "(>= %s (+ (str_len %s) (str_len %s)))", s, k, Select(MapVal(mv), k)))))
+}
+
+// execCopy models the allocate-then-copy idioms on []byte: the destination (a fresh make([]byte, n),
+// possibly re-sliced from an offset) receives new content; the register/local holding it is rebound.
+func (x *Exec) execCopy(f *Frame, i *ssa.Call) {
+	args := i.Call.Args
+	if !isByteSlice(args[0].Type()) {
+		x.fail("copy on non-byte slices")
+	}
+	src := x.term(f, args[1])
+	dstV := args[0]
+	off := IntLit(0)
+	var baseV ssa.Value = dstV
+	if sl, ok := dstV.(*ssa.Slice); ok {
+		if sl.High != nil {
+			x.fail("copy into a slice with upper bound")
+		}
+		baseV = sl.X
+		if sl.Low != nil {
+			off = x.term(f, sl.Low)
+		}
+	}
+	base := x.val(f, baseV)
+	old := base.T
+	nw := x.b.Fresh("copied", SStr)
+	nonNil := func(t Term) Term { return Ite(Eq(t, Term{"bytes_nil", SStr}), Term{"str_empty", SStr}, t) }
+	lenOld := x.strLen(nil, old)
+	lenSrc := x.strLen(nil, src)
+	facts := []Term{mk(SBool, "(= (str_len %s) %s)", nw, lenOld), Not(Eq(nw, Term{"bytes_nil", SStr}))}
+	if off.S == "0" {
+		facts = append(facts, Implies(mk(SBool, "(= %s %s)", lenSrc, lenOld), Or(Eq(nw, nonNil(src)), mk(SBool, "(= %s 0)", lenOld))))
+		facts = append(facts, Implies(And(mk(SBool, "(= %s %s)", lenSrc, lenOld), mk(SBool, "(= %s 0)", lenOld)), Eq(nw, Term{"str_empty", SStr})))
+		facts = append(facts, Implies(mk(SBool, "(<= %s %s)", lenSrc, lenOld), x.strPrefix(nil, nw, src)))
+		if x.strPrefixOf == nil {
+			x.strPrefixOf = map[string]Term{}
+		}
+		x.strPrefixOf[nw.S] = src
+	} else if p, ok := x.strPrefixOf[old.S]; ok {
+		// second copy of the concatenation idiom: old has prefix p; copying src right after it
+		cc := x.strConcat(nil, nonNil(p), src)
+		facts = append(facts, Implies(And(mk(SBool, "(= %s (str_len %s))", off, p), mk(SBool, "(= (+ %s %s) %s)", off, lenSrc, lenOld)), Eq(nw, cc)))
+	} else {
+		x.fail("copy at an offset into a destination without a known prefix")
+	}
+	x.assume(x.cur.reach, And(facts...))
+	// rebind
+	if base.prov != nil {
+		x.cur.locals[base.prov] = nw
+	}
+	f.regs[baseV] = Val{T: nw, prov: base.prov}
+	if baseV != dstV {
+		delete(f.regs, dstV)
+	}
+	// later loads of the local that held the destination see the new content (handled by prov);
+	// registers that alias the old value are refreshed
+	for v, r := range f.regs {
+		if r.T.S == old.S && r.LV == nil && v != baseV {
+			r.T = nw
+			f.regs[v] = r
+		}
+	}
+	x.setReg(f, i, Term{"0", SInt})
+	x.note("[]byte allocate-then-copy idioms are summarised as content equality/concatenation")
 }
 
 func (x *Exec) szFacts(before, after, k Term, v *Term) {
